@@ -398,6 +398,67 @@ def r13_6(ctx):
                        "the scalar tail after the vector loop examines bytes without having read the escape carry of the last block: its first byte may be the second half of an escape pair")
 
 
+def r13_6c(ctx):
+    """the escape step of a block may be skipped only when it cannot matter: in the scanner whose escape step is guarded by a
+    test of the quote and backslash masks, the decision DAG is evaluated for every (quote mask, backslash mask, carry)
+    at 8 bits; the escape step must be reached whenever the carry is set or a backslash lies below the first quote of
+    the block (or anywhere, when the block has no quote) - otherwise the escape status and the carry into the next block
+    are lost"""
+    from ..bitdag import run
+    prog = ctx.prog()
+    n = 0
+    for f in prog.fns.values():
+        if f.crate != "sonic_rs":
+            continue
+        gc = [(b, t) for b, t in f.calls() if callee_is(t, "get_escaped_branchless_u32", "get_escaped_branchless_u64")]
+        if len(gc) != 1:
+            continue
+        a0 = op_local(gc[0][1]["args"][0])
+        sc = f.src(a0) if a0 is not None else ("multi",)
+        if sc[0] != "refof":
+            continue  # the carry is a parameter: the caller's block loop is analysed instead
+        carry = sc[1]
+        bms = [(b, t) for b, t in f.calls() if callee_is(t, "bitmask")]
+        if len(bms) != 2:
+            continue
+        # which mask is which: the one handed to the escape step is the backslash mask
+        bs_arg = op_local(gc[0][1]["args"][1])
+        sl, leaves = backward_slice(f, [bs_arg])
+        bs_call = [x for x in bms if any(lf[0] == "call" and lf[1] == x[0] for lf in leaves)]
+        q_call = [x for x in bms if x not in bs_call]
+        if len(bs_call) != 1 or len(q_call) != 1:
+            continue
+        n += 1
+        bs_l, q_l = bs_call[0][1]["dest"][0], q_call[0][1]["dest"][0]
+        # start right after the later of the two masks is available
+        later = q_call[0] if f.dominates(bs_call[0][0], q_call[0][0]) else bs_call[0]
+        start = later[1]["t"]
+        call_b = gc[0][0]
+        # the walk ends at the escape step or where the quote mask is finally used
+        uses = {b for b, t in f.calls() if callee_is(t, "trailing_zeros", "eat", "peek_n")} | set(f.return_blocks)
+        bad = None
+        total = 0
+        unmodelled = 0
+        for q in range(256):
+            for bs in range(256):
+                for prev in (0, 1):
+                    env = {bs_l: bs, q_l: q, carry: prev}
+                    # the quote mask may be copied into a named variable first
+                    stop, _ = run(f, start, env, {call_b} | uses)
+                    total += 1
+                    if stop is None:
+                        unmodelled += 1
+                        continue
+                    low = (q & -q) - 1 if q else 255
+                    must = prev != 0 or (bs & low) != 0
+                    if must and stop != call_b and bad is None:
+                        bad = (q, bs, prev)
+        ctx.ob("R13.6", f"{short(f.id)}:escape-step-guard", bad is None and unmodelled == 0, f.loc(gc[0][1]["ln"]),
+               f"{total} (quote mask, backslash mask, carry) combinations: the escape step is reached whenever a backslash lies below the first quote or the carry is set" if bad is None and unmodelled == 0 else
+               (f"quote mask {bad[0]:#010b}, backslash mask {bad[1]:#010b}, carry {bad[2]}: the escape step is skipped although a backslash precedes the first quote (or the block has no quote): escape status and carry are lost" if bad else f"{unmodelled} combinations could not be evaluated (fail closed)"))
+    ctx.floor("R13.6", "scanners with a guarded escape step", n, 1)
+
+
 def r13_7(ctx):
     """a failing mutable-view accessor leaves the value untouched: the Raw -> Parsed conversion through `&mut self`
     happens only under a test that the raw value has the wanted kind"""
@@ -453,4 +514,4 @@ def r13_w(ctx):
     witness_obligations(ctx, "R13.W", [('W3LazyValueBorrows', 'a borrowed LazyValue cannot outlive its input')])
 
 
-RULES = [("R13.1", r13_1), ("R13.2", r13_2), ("R13.3", r13_3), ("R13.4", r13_4), ("R13.5", r13_5), ("R13.6", r13_6), ("R13.7", r13_7), ("R13.W", r13_w)]
+RULES = [("R13.1", r13_1), ("R13.2", r13_2), ("R13.3", r13_3), ("R13.4", r13_4), ("R13.5", r13_5), ("R13.6", r13_6), ("R13.6c", r13_6c), ("R13.7", r13_7), ("R13.W", r13_w)]
